@@ -28,6 +28,10 @@ pub struct RoCase {
     /// the volume carries the I/O-error status bit (0x02) at mount: it is not "dirty", the stored count stays usable
     #[serde(default)]
     pub io_error_bit: bool,
+    /// the application has a logger installed that accepts every level: the arguments of every log statement of the
+    /// library are evaluated (a log statement with a side effect only acts in such a process)
+    #[serde(default)]
+    pub logger: bool,
 }
 
 fn setup_gen() -> GenCfg {
@@ -47,7 +51,34 @@ fn ro_gen() -> GenCfg {
     g
 }
 
+struct SinkLogger;
+impl log::Log for SinkLogger {
+    fn enabled(&self, _: &log::Metadata) -> bool {
+        true
+    }
+    fn log(&self, r: &log::Record) {
+        // format the message as a real logger would (Debug impls of the library run here), then throw it away
+        use std::fmt::Write;
+        struct Null;
+        impl std::fmt::Write for Null {
+            fn write_str(&mut self, _: &str) -> std::fmt::Result {
+                Ok(())
+            }
+        }
+        let _ = write!(Null, "{}", r.args());
+    }
+    fn flush(&self) {}
+}
+static SINK: SinkLogger = SinkLogger;
+
+/// process-wide: all cases evaluated concurrently must agree (one block = one setting)
+fn set_logging(on: bool) {
+    let _ = log::set_logger(&SINK);
+    log::set_max_level(if on { log::LevelFilter::Trace } else { log::LevelFilter::Off });
+}
+
 pub fn eval(c: &RoCase) -> CaseOut {
+    set_logging(c.logger);
     let mut out = CaseOut::default();
     out.hash = run::hash_str(&serde_json::to_string(c).unwrap_or_default());
     let mut setup_cfg = RunCfg::new(&[]);
@@ -136,7 +167,7 @@ fn strategy() -> impl Strategy<Value = RoCase> {
         let mut mem: Vec<String> = Vec::new();
         let setup = s_raw.iter().flat_map(|r| gen::decode_op(&sg, &nt, cs, r, &mut mem)).collect();
         let ro = r_raw.iter().flat_map(|r| gen::decode_op(&rg, &nt, cs, r, &mut mem)).collect();
-        RoCase { vol, setup, ro, dirty: flags & 3 == 0, fsinfo_unknown: flags & 12 == 0, end_by_drop: flags & 16 != 0, abandon_setup: flags % 5 == 0, io_error_bit: flags % 7 == 3, odd_hint: if flags & 32 != 0 { 1 + (flags >> 6) + 3 * (flags & 1) } else { 0 }, odd_count: if flags & 0xC0 == 0xC0 { 1 + (flags & 1) } else { 0 } }
+        RoCase { vol, setup, ro, dirty: flags & 3 == 0, fsinfo_unknown: flags & 12 == 0, end_by_drop: flags & 16 != 0, abandon_setup: flags % 5 == 0, io_error_bit: flags % 7 == 3, odd_hint: if flags & 32 != 0 { 1 + (flags >> 6) + 3 * (flags & 1) } else { 0 }, odd_count: if flags & 0xC0 == 0xC0 { 1 + (flags & 1) } else { 0 }, logger: false }
     })
 }
 
@@ -146,7 +177,7 @@ pub fn replay(v: &serde_json::Value) -> Result<Option<String>, String> {
 }
 
 pub fn run(tier: Tier, seed: u64) -> i32 {
-    let rule = "volumes of every FAT width populated by a generated mutating history (library-formatted and imggen geometries), then cleanly unmounted and raw-edited to be clean or dirty, or abandoned with open unflushed handles (a real power cut: half-updated entries included), with the FS-info count present, unknown or out of range and the next-free hint valid or out of range (last+1, last+2, 0x0FFFFFFF, 0, 1); a generated read-only session (mount, list, open existing/missing, seek, read, extents, labels, status flags, stats, handle drops, unmount or drop, repeated remounts) runs on an instrumented device; oracle = the device's write log over the whole session is empty, sole exception FAT32 + stats() + no usable count at mount (unknown / out of range / volume dirty), where writes must lie inside the FS-info sector and store the true count; non-trivial = session reads file data, calls stats and lists or queries labels; distinct by hash of the case";
+    let rule = "volumes of every FAT width populated by a generated mutating history (library-formatted and imggen geometries), then cleanly unmounted and raw-edited to be clean or dirty, or abandoned with open unflushed handles (a real power cut: half-updated entries included), with the FS-info count present, unknown or out of range and the next-free hint valid or out of range (last+1, last+2, 0x0FFFFFFF, 0, 1); a generated read-only session (mount, list, open existing/missing, seek, read, extents, labels, status flags, stats, handle drops, unmount or drop, repeated remounts) runs on an instrumented device; oracle = the device's write log over the whole session is empty, sole exception FAT32 + stats() + no usable count at mount (unknown / out of range / volume dirty), where writes must lie inside the FS-info sector and store the true count; a third of the sessions again with a logger installed that accepts every level (arguments of all log statements evaluated and formatted); non-trivial = session reads file data, calls stats and lists or queries labels; distinct by hash of the case";
     let mut rep = Report::new("C13", tier, seed, "exploration", rule);
     rep.assume("access-date updating is left disabled (the property's condition)");
     let mut reg = Block::new("regress");
@@ -166,6 +197,11 @@ pub fn run(tier: Tier, seed: u64) -> i32 {
     rep.add(reg);
     if !rep.failed() {
         rep.add(run::run_random("random_readonly_sessions", seed, tier.pick(24000, 200000), "readonly", || run::boxed(strategy()), |c: &RoCase| eval(c)));
+    }
+    // the same sessions in a process whose logger accepts every level (the default features compile all log statements in)
+    if !rep.failed() {
+        rep.add(run::run_random("random_readonly_sessions_with_a_trace_level_logger", seed ^ 0x10C, tier.pick(8000, 80000), "readonly", || run::boxed(strategy().prop_map(|mut c| { c.logger = true; c })), |c: &RoCase| eval(c)));
+        set_logging(false);
     }
     rep.finish()
 }
